@@ -64,7 +64,7 @@ class TG:
                 e += "{% else %}none"
             return e + "{% endfor %}"
         if k == "set":
-            return "{%% set %s = %s %%}" % (r.choice(["a", "b", "t"]), self.expr())
+            return self.set_stmt(d)
         if k == "with":
             return "{%% with w = %s %%}{{ w }}%s{%% endwith %%}" % (self.expr(), self.body(d - 1))
         if k == "filterblock":
@@ -83,6 +83,22 @@ class TG:
             return r.choice(["{% import 'lib' as lib %}{{ lib.show(a) }}", "{% from 'lib' import show %}{{ show(name) }}",
                              "{% from 'lib' import show as s with context %}{{ s(b) }}"])
         raise AssertionError(k)
+
+    def set_stmt(self, d):
+        r = self.r
+        c = r.randrange(10)
+        if c < 4:
+            return "{%% set %s = %s %%}" % (r.choice(["a", "b", "t"]), self.expr())
+        if c < 6:
+            # tuple targets mixing exported and private (underscore) names: what a module exports is bookkeeping of its own
+            tg = r.choice(["label, _hidden", "_h, lab", "t, u", "_p, _q", "first, _r, last"])
+            n = tg.count(",") + 1
+            return "{%% set %s = [%s] %%}{{ %s }}" % (tg, ", ".join(self.expr() for _ in range(n)), tg.split(",")[r.randrange(n)].strip())
+        if c < 7:
+            return "{%% set _priv = %s %%}{{ _priv }}" % self.expr()
+        if c < 9:
+            return "{%% set %s %%}%s{%% endset %%}{{ %s }}" % (("t",) + (self.body(d - 1) if d > 0 else self.text(), "t"))
+        return "{% set ns = namespace(k=1) %}{% set ns.k = ns.k + 1 %}{{ ns.k }}"
 
     def body(self, d):
         return "".join(self.node(d) for _ in range(self.r.randrange(1, 4)))
@@ -118,6 +134,14 @@ class TG:
             self.templates["main"] = child
         else:
             self.templates["main"] = self.body(self.depth)
+        if "set" in self.f and r.random() < 0.6:
+            # top-level assignments (they decide what the template exports as a module)
+            pre = "".join(self.set_stmt(1) for _ in range(r.randrange(1, 3)))
+            if self.templates["main"].startswith("{% extends"):
+                i = self.templates["main"].index("%}") + 2
+                self.templates["main"] = self.templates["main"][:i] + pre + self.templates["main"][i:]
+            else:
+                self.templates["main"] = pre + self.templates["main"]
         return dict(self.templates), "main"
 
     def data(self):
